@@ -1978,7 +1978,21 @@ func (c *Ctx) checkNormalizeHalfOpen() {
 		}
 		nSt++
 		fromHi := derivesAny(st.Val, func(v ssa.Value) bool { f, idx := elemField(v); return f == hiF && idx != ia.Index })
-		fromLow := derivesAny(st.Val, func(v ssa.Value) bool { f, idx := elemField(v); return f == lowF && idx != ia.Index })
+		// ... the end of a single-id entry is its Low + 1 (half-open), not its Low
+		fromLow := derivesAny(st.Val, func(v ssa.Value) bool {
+			b, ok := v.(*ssa.BinOp)
+			if !ok || b.Op != token.ADD {
+				return false
+			}
+			for _, pr := range [][2]ssa.Value{{b.X, b.Y}, {b.Y, b.X}} {
+				f, idx := elemField(pr[0])
+				k, isK := core.Strip(pr[1]).(*ssa.Const)
+				if f == lowF && idx != ia.Index && isK && k.Value != nil && k.Value.ExactString() == "1" {
+					return true
+				}
+			}
+			return false
+		})
 		r.Check(fromHi && fromLow, "C04.2g-single-id-widened", fmt.Sprintf("%s: kept Hi extended #%d from the next entry's Hi, or Low+1 for a single id", fk(fn), nSt), c.pos(st), "",
 			"when the kept range is extended the next entry's Hi is taken as it is: a single-id entry (Hi == 0) that starts at the kept range's end is consumed without extending it and its id is lost")
 		// (h) the kept range only grows: the store is behind `kept.Hi < new value` (or takes a max)
